@@ -24,6 +24,7 @@ LOCALE_SETS = [
     ("de", ["de"]),
     ("en", ["fr", "de"]),                    # default not listed: must still come first
     ("it", ["fr", "es", "pt"]),
+    ("en", ["en", "fr", "en-US", "pt-br", "zh-hant-tw", "SR-latn"]),      # names that are not in canonical BCP-47 casing
     ("en", ["pa-Arab", "pa", "en", "uz", "uz-Arab", "ar", "he", "sr-Cyrl", "sr-Latn"]),   # same language, scripts of opposite direction
 ]
 
@@ -54,6 +55,8 @@ def direction_oracle(names):
     if missing:
         p = subprocess.run([hostrun.HOST_BIN, "direction"], input="\n".join(missing) + "\n", capture_output=True, text=True, env=hostrun.ENV)
         for l in p.stdout.split("\n"):
+            if "\t" not in l:
+                continue
             a, b = l.split("\t")
             _DIR_CACHE[a] = b
     return _DIR_CACHE
@@ -148,6 +151,56 @@ def run(tier, seed):
         twins_sat += 1 if r.status == "sat" else 0
         if len(samples) < 4:
             samples.append({"locales": order, "default": proj.default, "from_str": engine_g._short(from_str, 300)})
+    # ---- serde: LocaleVisitor from MIR (engine M)
+    serde_cov = {}
+    try:
+        import c13serde, mirsmt, replay, subprocess
+        mir = mirsmt.dump_mir("leptos_i18n", "leptos_i18n.mir")
+        serde_runs = []
+        for c in cases[:: (4 if tier == "quick" else 1)]:
+            proj = c.project
+            order = proj.locale_order()
+            res, calls = c13serde.decide(mir, order, proj.default)
+            serde_runs.append({"locales": order, "result": res})
+            for entry, bad in res.items():
+                queries += 1
+                if bad is None:
+                    unsat += 1
+                    continue
+                # native confirmation: the model's string plus strings near the configured names
+                cands = [bad["input"]]
+                for n in order:
+                    if n != proj.default:
+                        cands += [n + "-XX", n.upper(), n.lower(), n.replace("-", "_"), n.split("-")[0] + "-ZZ"]
+                cands = [x for x in dict.fromkeys(cands)]
+                body = c13serde.NATIVE.replace("@INPUTS@", ", ".join(replay.rust_str(x) for x in cands))
+                replay.setup_crate(c.dir, body)
+                env = dict(os.environ, CARGO_NET_OFFLINE="true", CARGO_TARGET_DIR=replay.TARGET)
+                try:
+                    p = subprocess.run(["cargo", "run", "--quiet"], cwd=replay.CRATE, env=env, capture_output=True, text=True, timeout=1800)
+                finally:
+                    replay.unlock()
+                reals = {}
+                for l in p.stdout.split("\n"):
+                    if "\t" in l:
+                        i, hx = l.split("\t")
+                        reals[int(i)] = bytes.fromhex(hx).decode()
+                wrong = []
+                for i, x in enumerate(cands):
+                    want = x.strip() if x.strip() in order else proj.default
+                    if reals.get(i) != want:
+                        wrong.append({"input": x, "deserialised_to": reals.get(i), "expected": want})
+                if wrong:
+                    violations.append((c, "serde deserialisation of a string that is not a configured name", {"entry": entry, "model": bad, "native": wrong[:6]}))
+                else:
+                    inconclusive.append((c.tag, "serde %s: model %r did not reproduce natively (rc=%s %s)" % (entry, bad, p.returncode, p.stderr[-300:])))
+                break
+        serde_cov = {"functions_encoded": ["leptos_i18n::__private::LocaleVisitor::visit_borrowed_str / visit_str / visit_string (MIR)"],
+                     "runs": serde_runs, "mir_calls_summarised": calls,
+                     "bounds": "every input string (z3 strings); FromStr is the generated one (decided above); a fallback through find_locale is over-approximated by 'any configured locale' and confirmed natively with strings near the configured names"}
+    except Exception as e:  # Unsupported MIR etc.
+        import traceback
+        inconclusive.append(("c13_serde", "UNSUPPORTED %s" % e))
     known = report.load_known()
     nviol = 0
     for c, label, detail in violations:
@@ -167,13 +220,14 @@ def run(tier, seed):
         "queries": queries, "queries_unsat": unsat, "vacuity_twins": twins, "vacuity_twins_sat": twins_sat,
         "solver": "z3 %s strings + regular expressions" % __import__("z3").get_version_string(), "solver_s": round(solver_s, 3),
         "inconclusive": [list(x) for x in inconclusive], "inconclusive_count": len(inconclusive),
+        "serde_visitor": serde_cov,
         "functions_encoded": ["generated Locale::as_str", "generated <Locale as FromStr>::from_str", "generated Locale::get_all (evaluated, compared structurally)", "generated Locale::direction", "generated Locale::as_icu_locale"],
         "bounds": "%d locale sets with regions, scripts, variants, near-duplicates, RTL languages, default not listed first; from_str decided for every string s (unbounded z3 strings), as_str/round trip for every locale." % len(cases),
     }, wall, [
         "str::trim is modelled as: s = pre.t.post with pre, post Unicode White_Space only and t not starting/ending with one",
         "interpretation: surrounding white space is trimmed before comparison, so ' fr ' parsing to fr is not reported",
         "text direction oracle = icu_locid_transform::LocaleDirectionality asked for the configured name (same CLDR data; what is decided is that every locale gets the direction of *its own* name)",
-        "serde / cookie codec go through library code (LocaleVisitor, codee): not claimed",
+        "serde: the visitor (library code) is executed from MIR; the generated Deserialize impl hands deserialize_str to it (not re-checked); the cookie codec (codee FromToStringCodec -> FromStr/Display) is not claimed",
     ], nviol)
     print("property=C13 tier=%s locale_sets=%d queries=%d unsat=%d twins=%d/%d inconclusive=%d solver_s=%.2f wall_s=%.1f" % (
         tier, len(cases), queries, unsat, twins_sat, twins, len(inconclusive), solver_s, wall))
